@@ -18,7 +18,7 @@ out = ['# Seeded breaking changes', '',
        '| id | breaks | kind | needs, to manifest | quick checks against it | pinned suite with the change |', '|---|---|---|---|---|---|']
 for r in rows:
     out.append('| ' + ' | '.join(str(x).replace('|', '\\|') for x in r) + ' |')
-out += ['', 'The sub-agents worked in four rounds (14, 12, 12 and 9 ideas, 46 kept after confirmation; from the second round on each agent was told which ideas had been used). Checks that initially missed a',
+out += ['', 'The sub-agents worked in six rounds (14, 12, 12, 9, 18 and 18 ideas, 82 kept after confirmation; from the second round on each agent was told which ideas had been used). Checks that initially missed a',
         'seeded change, and what was strengthened (every change is caught now; the "quick checks" column above was recorded at confirmation time):', '',
         '* S08 (kore-exists format string): the C19 notation monitor compared fully random argument tuples, which differ everywhere; it now renders a base tuple and, for every definition-relevant position, a variant that differs only there.',
         '* S09 (InstantiationOptimizer drops stray keys): the composer only instantiated keys that occur in the conclusion; 20% of the explicit instantiations now carry a key that does not occur.',
@@ -32,6 +32,17 @@ out += ['', 'The sub-agents worked in four rounds (14, 12, 12 and 9 ideas, 46 ke
         '* S40 (s_fresh of an Exists whose variable number equals the set variable): no sound stream depended on a set-freshness judgement; the valid-axiom catalogue gained s_fresh-dependent schemas and the stream generator a constraint-boundary probe (Instantiate with plugs that sit exactly on, and one step beyond, each declared constraint).',
         '* S42 (symbol table reset between phases): C03 compared only declared sets; the serialiser\'s symbol() seam is now observed across the three files (same name same number, distinct names distinct numbers).',
         '* S46 (claim recorded before the functional-substitution check): the E-trace workload only used functional substitution values; non-functional heads are now generated (refusal or acceptance both allowed, a refusal must be atomic).',
+        '* S48 (theory list cached across serialisations): no check used a module after serialising it; C02/C03 gained the growth history (an axiom, import or claim added after a serialisation, then a second serialisation).',
+        '* S51 (decoded proofs cached by proof text): C15 databases now carry, in 30% of the runs, an earlier theorem with the very same proof text over other variables.',
+        '* S55 (publish_proof consuming the caller\'s claims list): C08 built a fresh claims list per stack and never published; half of the runs now publish every result against the claim queue and half hand one list object to all stacks, as ProofExp.serialize does.',
+        '* S56 (Kore conversion memo ignoring the per-axiom scope): the first variable of every generated rule was called X, so a stale entry was indistinguishable; names are permuted per rule, and a conversion that raises on unfaulted input is reported instead of being counted as a refusal.',
+        '* S64 (GlobalScope.unambiguize iterating a set): no generated database declared #Variable variables; a third of the C18 Metamath targets now do, with axioms mentioning several of them.',
+        '* S65 (substitution pushed under a notation\'s own binder): the composer gained a Quantifier probe (plugs that bind, shadow or mention x0/x1, plain and under complete / partial binder notations).',
+        '* S68 (prop rules keyed by the database numbering): generated databases always stated the built-in rules over the first declared variables; other variables may now be declared before or between them.',
+        '* S71 (constraint lists written sorted; caught by C14, missed by C04): generated constraint lists were always ascending; 35% are now shuffled.',
+        '* S74 (freshness shortcut reading s_fresh; caught by C05, missed by C01): the freshness probe now also resolves the pending substitution in two steps (rename to a constrained metavariable, then replace it by a term mentioning x).',
+        '* S78 (unused notation arguments dropped on instantiate): only the Kore notations have unused arguments with positional formats; the composer gained a Kore notation library (kore-and, -or, -not, -next, -implies, -rewrites, -equals, -in, -ceil, -floor, -dv, -kseq, binder notations).',
+        '* S79 (nested brackets dropped): the C19 monitor now renders every notation nested in itself to the left and to the right. This also exposed a defect of the pinned tree (in-sort, D19).',
         '* revert of D9 slipped out of the C02 quick tier after the generator changes of round four (found by the full sensitivity run): the composer\'s probe now also resolves the pending substitution with a metavariable declared fresh for the variable.', '']
 open(os.path.join(VERIF, 'seeded', 'README.md'), 'w').write('\n'.join(out))
 print('\n'.join(out[:12]))
